@@ -198,13 +198,12 @@ func InitSharedMultiColumnReaders(segKey string, colNames map[string]bool,
 
 	var fName string
 	for cname, fetchFromBlob := range colNames {
-		if cname == "" {
-			return nil, fmt.Errorf("InitSharedMultiColumnReaders: unknown seg set col")
-		} else if cname == "*" {
+		if cname == "*" {
 			continue
-		} else {
-			fName = fmt.Sprintf("%v_%v.csg", segKey, xxhash.Sum64String(cname))
 		}
+		// "" is a column like any other: a document may use it as a key, and the
+		// writer stores it.
+		fName = fmt.Sprintf("%v_%v.csg", segKey, xxhash.Sum64String(cname))
 		csgFileToColNameMap[fName] = cname
 
 		if fetchFromBlob {
